@@ -75,7 +75,8 @@ Finish ==
 SimResp(c) == IF n[c] >= MaxLen THEN TailResp
               ELSE IF n[c] = MaxLen - 1 /\ ctxEnd[c] = NoEnd
                      THEN RandomElement({r \in SimSet : r.cls \in Terminal})
-                     ELSE SimAlphabet[RandomElement(1..Len(SimAlphabet))]
+                     ELSE \* the first response is never one that ends the submission (entries 1, 2)
+                          SimAlphabet[RandomElement((IF n[c] = 0 THEN 3 ELSE 1)..Len(SimAlphabet))]
 SimNext ==
   \/ \E c \in Callers :
         \/ PostCtx(c) \/ Decide(c) \/ TimerFires(c) \/ CtxEnds(c) \/ CtxReturn(c)
